@@ -1569,6 +1569,11 @@ def parameter_sweep(chk, rng, pairs: list[dict], thorough: bool, shard=None, onl
                                            "value": repr(v2)[:30] + " & " + n1 + "=" + repr(v1)[:30]}, ["id"]))
         calls = 0
         n_single = len(work)
+        # pairs in which one member is a boundary value (0 / 0.0: the values that select fast paths) go first:
+        # the quick tier's call budget per function must reach them
+        pair_work.sort(key=lambda w: 0 if " & " in w[1].get("value", "") and
+                       any(tok.strip() in ("0", "0.0") or tok.strip().endswith("=0") or tok.strip().endswith("=0.0")
+                           for tok in w[1]["value"].split(" & ")) else 1)
         work = work + pair_work
         single_bad: set = set()     # (param, repr(value)) whose use ALONE already deviates / is rejected / was not run
         single_ok: set = set()
